@@ -49,9 +49,18 @@ CONSTANTS N0,        \* length of the initial vector
           Cols,      \* > 0: the vector is the row-major storage of a matrix with Cols columns (views: "vwalk")
           ViewDepth, \* views are words of at most ViewDepth Slice / T steps (SparseMatrixView.tla)
           ViewT,     \* ... with at most ViewT transpositions
+          BMode,     \* operand matrices of whole-view operations: 0 = constant matrices, 1 = all of WSeqs
           SwapBug, StaleBug, SliceBug
 
 Val == {-1, 0, 1}
+(* Real element types: an element whose derivative (gradient or Hessian) is not zero is NOT a zero element even  *)
+(* when its value is 0 (nullScalar()).  Such an element is written v + 10 in both layers: 10 is "value 0 with a   *)
+(* non-zero derivative", so that it is a non-zero element of the dense model: it is stored, visited by every      *)
+(* iteration and survives skip().  It arises from "setvar" (At(i).SetVariable / SetDerivative / SetHessian) only;  *)
+(* SetX(value) and Reset clear the derivatives again.  Sort, arithmetic and the joint iterator are not driven     *)
+(* while such an element exists (their derivative rules are another property's business).                         *)
+Tag == 10
+ValX == IF "setvar" \in Ops THEN Val \cup {v + Tag : v \in Val} ELSE Val
 NilPtr == 99
 Objs == 1..MaxObj
 Iters == 1..NIter
@@ -144,6 +153,15 @@ Write(o, i, x) ==
   /\ UNCHANGED <<cit, mit>> /\ ok' = TRUE
   /\ Record([Ev("write", o) EXCEPT !.i = i, !.x = x])
 
+NoTag(o) == \A i \in DOMAIN content[o] : content[o][i] < 5
+(* v.At(i).SetVariable(..) (Real types): the element keeps its value and gets a non-zero derivative *)
+SetVar(o, i) ==
+  /\ "setvar" \in Ops /\ Alive(o) /\ i \in Idx(n[o]) /\ content[o][i] < 5 /\ Rd(vals[o], i) # NilPtr
+  /\ ValueStep(o, [content[o] EXCEPT ![i] = content[o][i] + Tag], Put(vals[o], i, Rd(vals[o], i) + Tag),
+               IF Has(vals[o], i) THEN index[o] ELSE index[o] \cup {i}, sh)
+  /\ UNCHANGED <<cit, mit>> /\ ok' = TRUE
+  /\ Record([Ev("setvar", o) EXCEPT !.i = i])
+
 (* v.Reset(): every stored cell is zeroed, nothing is removed *)
 Reset(o) ==
   /\ "reset" \in Ops /\ Alive(o) /\ ~HasNil(vals[o])
@@ -212,7 +230,7 @@ Permute(o, pi) ==
 
 (* v.Sort(reverse): collect the cells by a complete iteration, sort them, re-key them *)
 Sort(o, rev) ==
-  /\ "sort" \in Ops /\ Alive(o)
+  /\ "sort" \in Ops /\ Alive(o) /\ NoTag(o)
   /\ LET m    == n[o]
          wk   == FullWalk(vals[o], index[o])
          len  == Cardinality(DOMAIN wk.vals)           \* len(obj.values) after the loop
@@ -307,7 +325,7 @@ KnownDeviation_DenseOperandStop(name, c, w, m) ==
 (* (deleting null entries on the way) merged with the operand's non-zero positions; AT creates what  *)
 (* is missing; VmulV / VmulS `continue` where the receiver has no entry; V{add,sub}S touch every i.   *)
 Arith(name, o, wseq, x) ==
-  /\ name \in Ops /\ Alive(o) /\ ~HasNil(vals[o])
+  /\ name \in Ops /\ Alive(o) /\ ~HasNil(vals[o]) /\ NoTag(o)
   /\ LET m  == n[o]
          w  == IF name \in VecOps THEN FunOf(wseq) ELSE ConstFun(m, x)
          nc == CArith(name, content[o], w)
@@ -327,6 +345,7 @@ Arith(name, o, wseq, x) ==
                                 !.d = IF name \in VecOps
                                       THEN SeqOf(KnownDeviation_DenseOperandStop(name, content[o], FunOf(wseq), n[o]), n[o])
                                       ELSE <<>>])
+BSeqs(m) == IF BMode = 0 THEN {[t \in 1..m |-> v] : v \in Val} ELSE {w \in [1..m -> Val] : Cardinality({t \in 1..m : w[t] # 0}) <= WMax}
 WSeqs(m) == {w \in [1..m -> Val] : Cardinality({t \in 1..m : w[t] # 0}) <= WMax}
 
 (* it := v.ConstIterator() / v.Iterator() / v.ConstIteratorFrom(i) *)
@@ -407,6 +426,39 @@ ViewWrite(o, word, i, j, x) ==
         /\ UNCHANGED <<cit, mit>>
         /\ Record([Ev("vwrite", o) EXCEPT !.i = i, !.k = j, !.x = x, !.w = FlatWord(word)])
 
+(* a WHOLE-VIEW operation with the view (slices only) as receiver: Reset / SetIdentity / Set / MdotM / MmulS /  *)
+(* MaddM / Map.  Effect-level transcription: the clipping iterator walks the view (null entries it passes are   *)
+(* purged), stored in-view cells are overwritten, missing ones created where the operation needs them; Map      *)
+(* touches every cell of the view through At (creating all of them).  Nothing outside the view is written.     *)
+ViewBulk(o, word, name, bseq, x) ==
+  /\ "vbulk" \in Ops /\ Cols > 0 /\ MaxObj = 1 /\ Alive(o) /\ n[o] > 0 /\ n[o] % Cols = 0 /\ ~HasT(word)
+  /\ ~HasNil(vals[o]) /\ NoTag(o)
+  /\ LET rows == n[o] \div Cols
+         cv   == DenView(word, rows, Cols)
+         mv   == MechView(vals[o], index[o], WholeHdr(rows, Cols), word, 1)
+         b    == IF name \in BulkOperandOps THEN FunOf(bseq) ELSE ConstFun(n[o], 0)
+         nc   == CViewBulk(content[o], cv, name, b, x)
+         wk   == VWalk(mv.vals, mv.index, mv.h, MinGE(mv.index, mv.h.ro * mv.h.cmax + mv.h.co), <<>>)
+         cells == (0..(mv.h.rows-1)) \X (0..(mv.h.cols-1))
+         pos(ij) == HIndex(mv.h, ij[1], ij[2])
+         K    == {pos(ij) : ij \in {c \in cells : Has(wk.vals, pos(c))}}      \* stored in-view cells after the walk
+         NB   == {pos(ij) : ij \in {c \in cells : b[pos(c)] # 0}}
+         T    == CASE name \in {"w_reset", "w_muls"} -> K
+                   [] name = "w_identity" -> K \cup {pos(ij) : ij \in {c \in cells : c[1] = c[2]}}
+                   [] name = "w_map"      -> {pos(ij) : ij \in cells}
+                   [] OTHER               -> K \cup NB
+         at(k) == CHOOSE ij \in cells : pos(ij) = k
+         base == IF name = "w_map" THEN vals[o] ELSE wk.vals
+         nv   == TLCEval([k \in DOMAIN base \cup T |->
+                    IF k \in T THEN BulkElem(name, at(k)[1], at(k)[2], Rd(base, k), b[k], x) ELSE base[k]])
+         ni   == (IF name = "w_map" THEN index[o] ELSE wk.index) \cup (T \ DOMAIN base)
+     IN /\ (name = "w_mdotm" => mv.h.rows > 0 /\ mv.h.cols > 0)
+        /\ \A k \in DOMAIN nc : nc[k] \in Val
+        /\ ValueStep(o, nc, nv, ni, sh)
+        /\ ok' = (mv.h.rows = cv.vr /\ mv.h.cols = cv.vc /\ \A ij \in cells : pos(ij) = cv.map[ij])
+        /\ UNCHANGED <<cit, mit>>
+        /\ Record([Ev(name, o) EXCEPT !.w = FlatWord(word), !.p = IF name \in BulkOperandOps THEN bseq ELSE <<>>, !.x = x])
+
 (* w := a fresh zero vector of length m as vector 2 (it gets its own history before it is appended) *)
 New2(m) ==
   /\ "new2" \in Ops /\ MaxObj = 2 /\ Alive(1) /\ n[1] + m <= MaxN
@@ -439,7 +491,7 @@ AppendObj ==
 
 (* a complete loop over v.JointIterator(w) *)
 JointWalk(o, wseq) ==
-  /\ "jwalk" \in Ops /\ Alive(o)
+  /\ "jwalk" \in Ops /\ Alive(o) /\ NoTag(o)
   /\ LET w  == FunOf(wseq)
          wk == FullWalk(vals[o], index[o])
          a  == Asc(KeysOfSeq(wk.seq) \cup NZ(w))
@@ -466,11 +518,15 @@ Next ==
        \/ WalkAll(o)
        \/ (Alive(o) /\ \E w \in WSeqs(n[o]) : JointWalk(o, w))
   \/ \E j \in Iters : IterNext(j)
+  \/ \E o \in Objs, i \in Idx(MaxN) : SetVar(o, i)
   \/ (Cols > 0 /\ \E o \in Objs : Alive(o) /\ n[o] > 0 /\
         \E word \in Words(ViewDepth, ViewT, n[o] \div Cols, Cols) :
            \/ ViewWalk(o, word, -1, 0)
            \/ (Len(word) <= 1 /\ \E fi \in 0..(MaxN - 1), fj \in 0..(Cols - 1) : ViewWalk(o, word, fi, fj))
-           \/ (Len(word) >= 1 /\ \E i \in 0..(MaxN - 1), j \in 0..(MaxN - 1), x \in Val : ViewWrite(o, word, i, j, x)))
+           \/ (Len(word) >= 1 /\ \E i \in 0..(MaxN - 1), j \in 0..(MaxN - 1), x \in Val : ViewWrite(o, word, i, j, x))
+           \/ (Len(word) >= 1 /\ \E nm \in {"w_reset", "w_identity", "w_map"} : ViewBulk(o, word, nm, <<>>, 0))
+           \/ (Len(word) >= 1 /\ \E x \in Val : ViewBulk(o, word, "w_muls", <<>>, x))
+           \/ (Len(word) >= 1 /\ \E nm \in BulkOperandOps : \E bseq \in BSeqs(n[o]) : ViewBulk(o, word, nm, bseq, 0)))
   \/ \E m \in 0..MaxN : New2(m)
   \/ AppendObj
   \/ \E a, b \in 0..MaxN : Slice1(a, b) \/ Slice2(a, b)
@@ -481,7 +537,7 @@ Next ==
 Spec == Init /\ [][Next]_vars
 
 (* ---------------------------------------------------------- invariants *)
-TypeOK   == \A o \in Objs : Alive(o) => content[o] \in [Idx(n[o]) -> Val]
+TypeOK   == \A o \in Objs : Alive(o) => content[o] \in [Idx(n[o]) -> ValX]
 (* every in-range read succeeds (no placeholder cell) and equals the dense model *)
 ReadsOK  == \A o \in Objs : Alive(o) => \A i \in Idx(n[o]) : Rd(vals[o], i) = content[o][i]
 NoNil    == \A o \in Objs : ~HasNil(vals[o])
